@@ -280,6 +280,20 @@ def _call_builtin(I, st, f, name, args, kw, frame, node, where):
             return [(st, Num.const(len(v.s)))]
         elif v is NONE:
             return [(st, Raised('TypeError', 'len(None)', where))]
+        elif isinstance(v, Cat):
+            # length of a concatenation: literal parts count, every spliced value contributes its own length symbol
+            p = Num.const(0).p
+            for part in v.parts:
+                if isinstance(part, str):
+                    p = p + Num.const(len(part)).p
+                elif part[2] in ('', None) and isinstance(part[1], (SStr, Str)):
+                    if isinstance(part[1], Str):
+                        p = p + Num.const(len(part[1].s)).p
+                    else:
+                        p = p + I.symbol('len(%s)' % _k(part[1]), POS if part[1].nonempty else NONNEG, kind='len').p
+                else:
+                    p = p + I.symbol('len(%s)' % repr(vkey(part[1])), NONNEG, kind='len').p
+            return [(st, Num(p, True))]
         else:
             n = I.symbol('len(%s)' % _k(v), NONNEG, kind='len')
             return [(st, Num(n.p, True))]
@@ -426,6 +440,37 @@ def _call_builtin(I, st, f, name, args, kw, frame, node, where):
         return [(st, I.symbol('time.time()', POS, kind='clock'))]
     if name in ('copy.deepcopy', 'copy.copy'):
         return [(st, copy_object(I, st, args[0], name == 'copy.deepcopy', frame, node))]
+    if name in ('OrderedDict', 'collections.OrderedDict') or name.endswith('.OrderedDict') or (name == 'dict' and args and not kw and not (
+            isinstance(args[0], Obj) and args[0].oid in st.maps)):
+        oid = st.new_oid('dict', 'odict@%s' % frame.fn.name)
+        st.maps[oid] = ()
+        st.flags.add(('fresh', oid))
+        if args:
+            # built from (key, value) pairs: inserted one after the other, a repeated key keeps its place and takes the last value
+            a = args[0]
+            if isinstance(a, Obj) and a.oid in st.maps:
+                st.maps[oid] = tuple(st.maps[a.oid])
+                return [(st, Obj(oid))]
+            from .exprs import seq_elements
+            from .containers import map_set
+            try:
+                elems = seq_elements(I, st, a)
+            except Unsupported:
+                elems = None
+            if elems is None or any(isinstance(x, Star) or type(x).__name__ == 'Opt' for x in elems):
+                st.maps[oid] = (('star', '%s(%s)' % (name.split('.')[-1], _k(a))),)
+                return [(st, Obj(oid))]
+            cur = [st]
+            for el in elems:
+                nxt = []
+                for s1 in cur:
+                    for (s2, pair) in I.force(s1, el):
+                        if not (isinstance(pair, TupleV) and len(pair.elems) == 2):
+                            raise Unsupported('dict built from something that is not a pair in %s' % frame.qual())
+                        nxt.extend(map_set(I, s2, Obj(oid), pair.elems[0], pair.elems[1], frame))
+                cur = nxt
+            return [(s1, Obj(oid)) for s1 in cur]
+        return [(st, Obj(oid))]
     if name == 'dict':
         oid = st.new_oid('dict', 'dict@%s' % frame.fn.name)
         items = []
@@ -448,11 +493,6 @@ def _call_builtin(I, st, f, name, args, kw, frame, node, where):
             st.maps[oid] = tuple(('kv', k, val) for k in elems)
             st.flags.add(('fresh', oid))
             return [(st, Obj(oid))]
-    if name in ('OrderedDict', 'collections.OrderedDict') or name.endswith('.OrderedDict'):
-        oid = st.new_oid('dict', 'odict@%s' % frame.fn.name)
-        st.maps[oid] = ()
-        st.flags.add(('fresh', oid))
-        return [(st, Obj(oid))]
     if name in ('list', 'tuple'):
         from .exprs import seq_elements
         elems = seq_elements(I, st, args[0]) if args else []
@@ -508,6 +548,16 @@ def _call_builtin(I, st, f, name, args, kw, frame, node, where):
         return [(st, I.maybe(('nomatch', tag), Opaque(tag, set().union(*[deps_of(a) for a in args]) if args else ())))]
     if f.recv is None and '.' in name and name.split('.')[0].startswith('M:') or name.startswith('M:'):
         base, _, meth = name.rpartition('.')
+        if meth == 'group' and len(args) > 1:
+            # match.group(a, b, ...) is the tuple of the single-group results
+            cur = [(st, [])]
+            for a in args:
+                nxt = []
+                for (s1, acc) in cur:
+                    for (s2, v) in _call_builtin(I, s1, f, name, [a], {}, frame, node, where):
+                        nxt.append((s2, acc + [v]))
+                cur = nxt
+            return [(s1, TupleV(acc)) for (s1, acc) in cur]
         if meth == 'group' and args:
             gtag = '%s.g%s' % (base, _k(args[0]))
             guards = regex_guards(I, base[2:].split('(')[0])
